@@ -9,10 +9,11 @@ PUB_ACKS = ("PUBACK", "PUBREC", "PUBCOMP")
 
 def _ctx_events(w, e):
     """events recorded while the delivery / call / timer that produced event e was running"""
+    from .sim import within
     out = []
     i = e.i + 1
     log = w.log
-    while i < len(log) and log[i].ctx is e.ctx:
+    while i < len(log) and within(log[i].ctx, e.ctx):
         out.append(log[i])
         i += 1
     return out
@@ -201,14 +202,14 @@ class PubWalk(object):
                     if on_tx:
                         on_tx(self, e, ri, fr, first)
             elif k == "rx":
-                d = e.d["desc"]
+              for d in (e.d.get("parts") or [e.d["desc"]]):
                 if d[0] == "CONNACK" and d[1] == 0 and w.conns[e.c].clean:
                     # a clean session is being established: carried-over QoS 0 messages still held back are dropped
                     self._drop_unsent_q0(w.conns[e.c].a, before_conn=w.conns[e.c])
                 if d[0] in ("PUBACK", "PUBREC", "PUBCOMP"):
                     a = w.conns[e.c].a
                     for ri in F.pubs():
-                        if ri.a == a and any(x[0] == e.i for x in ri.acks):
+                        if ri.a == a and any(x[0] == e.i and x[3] == d[0] for x in ri.acks):
                             if d[0] in ("PUBACK", "PUBREC") and ri.rid in self.await_ack[a]:
                                 self.await_ack[a].remove(ri.rid)
                                 if d[0] == "PUBREC":
@@ -1410,8 +1411,8 @@ def mon_c12(w, F, vd):
                         vd.bad("C12.survived_clean_connection", "publish #%d carried over into a clean-session connection is still pending after its loss" % ri.rid)
         elif e.k == "rx" and e.d["desc"][0] == "CONNACK" and e.d["desc"][1] == 0:
             conn = w.conns[e.c]
-            nxt = w.log[e.i + 1:]
-            became = any(x.k == "phase" and x.c == e.c and x.d["new"] == "connected" and x.step == e.step for x in nxt[:400])
+            became = any(x.k == "phase" and x.c == e.c and x.d["new"] == "connected" and x.step == e.step
+                         for x in w.log[max(0, e.i - 3):e.i])
             if not became:
                 continue
             evs = _ctx_events(w, e)
@@ -1544,6 +1545,7 @@ def _is_state_error(x):
 def mon_c14(w, F, vd):
     prof = w.cfg["profile"]
     phase, closed, lost, zombie = {}, set(), set(), set()
+    last_phase_ev = {}
     cells = set()
     for e in w.log:
         k = e.k
@@ -1551,6 +1553,7 @@ def mon_c14(w, F, vd):
             phase[e.c] = "new"
         elif k == "phase":
             phase[e.c] = e.d["new"]
+            last_phase_ev[e.c] = e
         elif k in ("close", "abort"):
             closed.add(e.c)
         elif k == "lost":
@@ -1621,6 +1624,9 @@ def mon_c14(w, F, vd):
             if d[0] == "RAW":
                 continue
             ph = phase.get(c, "new")
+            lp = last_phase_ev.get(c)
+            if d[0] == "CONNACK" and lp is not None and lp.step == e.step and e.i - 3 <= lp.i < e.i:
+                ph = lp.d["old"]       # the harness moves its phase just before delivering the CONNACK that causes it
             st = "idle" if ph in ("new", "refused") else ph
             cells.add("%s:%s:rx:%s" % (prof, "idle_refused" if ph == "refused" else "idle_new" if st == "idle" else st, d[0]))
             if _belongs(d[0], st, prof):
